@@ -248,6 +248,10 @@ fn c16_all(quick: bool) -> Vec<C16Case> {
             }
         }
     }
+    // --sorted start with chromosomes out of name order
+    for bed in [false, true] {
+        v.push(C16Case { bed, input: 96, threads: 4, parallel: s("yes"), single_pass: false, inmemory: false, uncompressed: false, block_size: 256, zooms: false, multicall: false, ucsc: false, stdin: false });
+    }
     // BED text through a pipe named like a file
     for (ucsc, threads) in [(false, 1usize), (true, 4)] {
         v.push(C16Case { bed: true, input: 97, threads, parallel: s("auto"), single_pass: true, inmemory: false, uncompressed: false, block_size: 256, zooms: false, multicall: false, ucsc, stdin: false });
@@ -408,6 +412,57 @@ fn c16_low_fd(c: &C16Case, out: &mut Outcome) {
     }
 }
 
+/// `--sorted start`: the chromosomes come in an order that is not the byte order of their names
+/// (C, A, B and chr2, chr10, chr1); every path -- serial, parallel, single- and two-pass -- converts
+/// the file, and the records come back.
+fn c16_sorted_start(c: &C16Case, out: &mut Outcome) {
+    let wd = workdir();
+    let dir = wd.path();
+    for (k, names) in [["chrC", "chrA", "chrB"], ["chr2", "chr10", "chr1"]].iter().enumerate() {
+        let mut text = String::new();
+        for (ci, n) in names.iter().enumerate() {
+            for i in 0..40u32 {
+                if c.bed {
+                    text.push_str(&format!("{}\t{}\t{}\tn{}_{}\n", n, 3 * i + ci as u32, 3 * i + ci as u32 + 2, ci, i));
+                } else {
+                    text.push_str(&format!("{}\t{}\t{}\t{}\n", n, 3 * i + ci as u32, 3 * i + ci as u32 + 2, (i % 5) as f32 + 0.5));
+                }
+            }
+        }
+        std::fs::write(dir.join("in.txt"), &text).unwrap();
+        std::fs::write(dir.join("sizes"), names.iter().map(|n| format!("{}\t1000\n", n)).collect::<String>()).unwrap();
+        let mut want: Vec<&str> = text.lines().collect();
+        want.sort();
+        for (threads, parallel) in [(1usize, "no"), (4, "no"), (4, "yes")] {
+            for single_pass in [false, true] {
+                let tool = if c.bed { "bedtobigbed" } else { "bedgraphtobigwig" };
+                let mut argv = vec![s(tool), s("in.txt"), s("sizes"), s("out.bb"), s("-s"), s("start"), s("-t"), threads.to_string(), s("-p"), s(parallel)];
+                if single_pass {
+                    argv.push(s("--single-pass"));
+                }
+                let tags = vec![if c.bed { s("bed") } else { s("bedgraph") }, s("sorted_start"), format!("parallel_{}", parallel)];
+                let _ = std::fs::remove_file(dir.join("out.bb"));
+                let r = run_in(dir, &argv);
+                out.count("process_runs", 1);
+                out.count("conversions_with_sorted_start", 1);
+                if r.timed_out || r.code != Some(0) {
+                    out.fail("conversion_failed", &tags, format!("{:?} (chromosome order {}): exit {:?} stderr {}", argv, k, r.code, r.stderr.chars().take(300).collect::<String>()));
+                    continue;
+                }
+                let back = if c.bed { "bigbedtobed" } else { "bigwigtobedgraph" };
+                let r = run_in(dir, &[s(back), s("out.bb"), s("back.txt")]);
+                out.count("process_runs", 1);
+                let got_text = std::fs::read_to_string(dir.join("back.txt")).unwrap_or_default();
+                let mut got: Vec<&str> = got_text.lines().collect();
+                got.sort();
+                if r.code != Some(0) || got != want {
+                    out.fail("roundtrip_records_differ", &tags, format!("{:?} (chromosome order {}): {} records come back for {}", argv, k, got.len(), want.len()));
+                }
+            }
+        }
+    }
+}
+
 /// The BED text arrives through a pipe that is named like a file (`<(cat in.bed)`, a FIFO): it
 /// can be read once, from the start, and nothing that was read from it comes back.  With a supplied
 /// autoSql and `--single-pass` the converter has no reason to look at the input twice; lines of a
@@ -473,6 +528,10 @@ impl Check for C16 {
         }
         if c.input == 97 {
             c16_pipe_input(c, out);
+            return;
+        }
+        if c.input == 96 {
+            c16_sorted_start(c, out);
             return;
         }
         let wd = workdir();
@@ -1148,6 +1207,9 @@ pub fn avg_regions(k: usize) -> Vec<(String, u32, u32, String)> {
         ],
         // no region at all (an empty file): an empty result, whatever the thread count
         6 => vec![],
+        // rows that end in white space that is not ASCII (ideographic space, no-break space, next
+        // line): the end of a row is trimmed the same way whatever the thread count
+        8 => vec![(s("chr1"), 0, 8, s("peak1\u{3000}")), (s("chr1"), 4, 20, s("peak2\u{a0}")), (s("chr2"), 0, 8, s("peak3\u{85}")), (s("chr1"), 8, 16, s("plain")), (s("chr2"), 8, 16, s("peak5\u{3000}\u{3000}"))],
         // regions that reach far beyond the 200-base chromosomes, two of them ending on the largest
         // coordinate there is
         7 => vec![(s("chr1"), 0, 8, s("first")), (s("chr1"), 96, 4_294_967_295, s("to_max")), (s("chr2"), 0, 4_294_967_295, s("all_to_max")), (s("chr1"), 16, 4_294_967_294, s("almost_max")), (s("chr2"), 8, 16, s("plain"))],
@@ -1198,6 +1260,11 @@ pub fn avg_tool_cases(quick: bool) -> Vec<AvgTool> {
     v.push(AvgTool { file: 0, regions: 5, namecol: Some(s("interval")), min_max: true, final_newline: false });
     v.push(AvgTool { file: 0, regions: 4, namecol: Some(s("interval")), min_max: false, final_newline: false });
     v.push(AvgTool { file: 0, regions: 6, namecol: None, min_max: true, final_newline: false });
+    for namecol in [None, Some("5"), Some("none")] {
+        for final_newline in [true, false] {
+            v.push(AvgTool { file: 0, regions: 8, namecol: namecol.map(s), min_max: false, final_newline });
+        }
+    }
     v.push(AvgTool { file: 0, regions: 7, namecol: None, min_max: true, final_newline: true });
     v.push(AvgTool { file: 0, regions: 7, namecol: Some(s("interval")), min_max: false, final_newline: false });
     for file in 0..2 {
@@ -1272,9 +1339,10 @@ pub fn c17_tool(t: &AvgTool, out: &mut Outcome) {
         let size = b - a;
         let name = match t.namecol.as_deref() {
             None => n.clone(),
-            Some("5") => format!("col5_{}", n),
+            // (the end of a row is trimmed of white space before it is split)
+            Some("5") => format!("col5_{}", n).trim_end().to_string(),
             Some("interval") => format!("{}:{}-{}", c, a, b),
-            _ => format!("{}\t{}\t{}\t{}\tcol5_{}", c, a, b, n, n),
+            _ => format!("{}\t{}\t{}\t{}\tcol5_{}", c, a, b, n, n).trim_end().to_string(),
         };
         let (mean, mn, mx) = if bases == 0 { (f64::NAN, f64::NAN, f64::NAN) } else { (sum / bases as f64, mn, mx) };
         let row = if t.min_max {
@@ -1361,6 +1429,40 @@ pub fn c17_tool(t: &AvgTool, out: &mut Outcome) {
                 let want: Vec<String> = (*a..*b).map(|p| items.iter().find(|i| i.0 <= p && p < i.1).map(|i| i.2).unwrap_or(0.0).to_string()).collect();
                 if rows.get(i).map(|r| *r != want.join("\t")).unwrap_or(true) {
                     out.fail("values_tool_rows_wrong", &tags, format!("chrN [{},{}): got {:?}, expected {:?}", a, b, rows.get(i), want.join("\t")));
+                    break;
+                }
+            }
+        }
+    }
+    // values over bed on regions longer than 2^20 bases with stored values lying across the multiples
+    // of 2^20 from the region start (once per check run)
+    if t.file == 1 && t.regions == 0 && t.namecol.is_none() && t.min_max {
+        let items: Vec<(u32, u32, f32)> = vec![(10, 20, 1.5), (1_048_000, 1_049_100, 2.0), (1_049_100, 1_049_200, 0.5), (2_097_000, 2_097_300, 3.0), (2_199_990, 2_200_000, 4.0)];
+        let mut spec3 = spec.clone();
+        spec3.chroms = vec![EncChrom { name: s("chrL"), size: 2_300_000, wig: vec![WigSec::T1(items.clone())], bed: vec![] }];
+        std::fs::write(dir.join("long.bw"), encode(&spec3).bytes).unwrap();
+        let regs3: Vec<(u32, u32)> = vec![(0, 2_200_000), (500, 1_100_500), (1_048_576, 1_048_580), (0, 1_048_576)];
+        let bed3: String = regs3.iter().map(|(a, b)| format!("chrL\t{}\t{}\n", a, b)).collect();
+        std::fs::write(dir.join("long.bed"), bed3).unwrap();
+        let argv = vec![s("bigwigvaluesoverbed"), s("long.bw"), s("long.bed"), s("longvals.txt")];
+        let r = run_in(dir, &argv);
+        out.count("tool_values_runs_on_regions_over_2_20_bases", 1);
+        if r.timed_out || r.code != Some(0) {
+            out.fail("values_tool_failed", &tags, format!("{:?}: exit {:?} stderr {}", argv, r.code, r.stderr.chars().take(300).collect::<String>()));
+        } else {
+            let text = std::fs::read_to_string(dir.join("longvals.txt")).unwrap_or_default();
+            let rows: Vec<&str> = text.lines().collect();
+            for (i, (a, b)) in regs3.iter().enumerate() {
+                let mut want = vec![0f32; (b - a) as usize];
+                for it in items.iter().filter(|it| it.1 > *a && it.0 < *b) {
+                    for p in it.0.max(*a)..it.1.min(*b) {
+                        want[(p - a) as usize] = it.2;
+                    }
+                }
+                let got: Vec<&str> = rows.get(i).map(|r| r.split('\t').collect()).unwrap_or_default();
+                let first_bad = if got.len() != want.len() { Some(usize::MAX) } else { got.iter().zip(want.iter()).position(|(g, w)| g.parse::<f32>().ok().map(|x| x.to_bits()) != Some(w.to_bits())) };
+                if let Some(k) = first_bad {
+                    out.fail("values_tool_rows_wrong", &tags, format!("chrL [{},{}): {} values for {} bases; first difference at offset {}", a, b, got.len(), want.len(), k));
                     break;
                 }
             }
@@ -1578,6 +1680,15 @@ pub fn refuse_tool_cases(quick: bool) -> Vec<RefuseTool> {
     for threads in [1usize, 2] {
         v.push(RefuseTool { bed: false, what: s("merge_valid_big"), threads, parallel: s("no"), single_pass: false, stdin: false });
     }
+    v.push(RefuseTool { bed: false, what: s("merge_valid_chunked_big"), threads: 2, parallel: s("no"), single_pass: false, stdin: false });
+    v.push(RefuseTool { bed: false, what: s("merge_valid_chunked_big"), threads: 1, parallel: s("no"), single_pass: true, stdin: false });
+    // a stray line of another chromosome inside a long run, where no probe of the indexer lands
+    for bed in [false, true] {
+        for single_pass in [false, true] {
+            v.push(RefuseTool { bed, what: s("stray_line_in_long_run"), threads: 4, parallel: s("yes"), single_pass, stdin: false });
+            v.push(RefuseTool { bed, what: s("stray_line_in_long_run"), threads: 1, parallel: s("no"), single_pass, stdin: false });
+        }
+    }
     for what in ["merge_mismatched_sizes", "merge_mismatched_sizes_first_chrom", "merge_valid"] {
         for threads in [1usize, 4] {
             for single_pass in [false, true] {
@@ -1650,7 +1761,35 @@ fn c13_merge_tool(t: &RefuseTool, out: &mut Outcome) {
         _ => mk("b.bw", &[("chr2", 50), ("chr3", 10)]),
     }
     let output = if t.single_pass { "out.bedGraph" } else { "out.bw" };
-    let argv = vec![s("bigwigmerge"), s("-b"), s("a.bw"), s("-b"), s("b.bw"), s(output), s("-t"), t.threads.to_string()];
+    let mut argv = vec![s("bigwigmerge"), s("-b"), s("a.bw"), s("-b"), s("b.bw"), s(output), s("-t"), t.threads.to_string()];
+    if t.what == "merge_valid_chunked_big" {
+        // more inputs than the tool keeps open at once (977 > 976), each with 70 000 intervals on the
+        // chromosome: the chunks it merges first hold more than 65 536 intervals each
+        let mut spec = EncSpec {
+            bed: false,
+            le: true,
+            compress: true,
+            version: 4,
+            chroms: vec![EncChrom { name: s("chr1"), size: 400_000, wig: (0..70u32).map(|k| WigSec::T1((0..1000u32).map(|i| (3 * (1000 * k + i), 3 * (1000 * k + i) + 2, (i % 7) as f32 + 0.5)).collect())).collect(), bed: vec![] }],
+            chrom_block: 64,
+            chrom_level_order: false,
+            chrom_ids_in_given_order: false,
+            chrom_ids_reverse_of_keys: false,
+            fanout: 64,
+            placement: Placement::LevelOrder,
+            zooms: vec![],
+            zoom_ips: 4,
+            zoom_blocks_span_chroms: false,
+            trailing_magic: true,
+            index_last: false,
+            no_summary: false,
+            autosql: None,
+        };
+        spec.compress = t.single_pass;
+        std::fs::write(dir.join("big.bw"), encode(&spec).bytes).unwrap();
+        std::fs::write(dir.join("inputs.txt"), "big.bw\n".repeat(977)).unwrap();
+        argv = vec![s("bigwigmerge"), s("-l"), s("inputs.txt"), s(output), s("-t"), t.threads.to_string()];
+    }
     let r = run_in(dir, &argv);
     out.count("tool_refusal_runs", 1);
     out.count("tool_merge_refusal_runs", 1);
@@ -1664,7 +1803,7 @@ fn c13_merge_tool(t: &RefuseTool, out: &mut Outcome) {
         return;
     }
     let panicked = r.code == Some(101) || r.code.is_none();
-    if t.what == "merge_valid" || t.what == "merge_valid_big" {
+    if t.what == "merge_valid" || t.what == "merge_valid_big" || t.what == "merge_valid_chunked_big" {
         if r.code != Some(0) || panicked {
             out.fail("tool_fails_on_valid_input", &tags, format!("{:?}: exit {:?} stderr {}", argv, r.code, r.stderr.chars().take(300).collect::<String>()));
         } else {
@@ -1746,6 +1885,12 @@ fn refuse_tool_run(t: &RefuseTool, out: &mut Outcome, judge_leftover: bool) {
         "missing_end_last" => raw = Some((rows.len() - 1, s("chrC\t97"))),
         "non_numeric_start_last" => raw = Some((rows.len() - 1, s("chrC\tx97\t98\t1"))),
         "empty_input" => rows.clear(),
+        "stray_line_in_long_run" => {
+            rows.clear();
+            for i in 0..100i64 {
+                rows.push((s(if i == 10 { "chrB" } else if i < 60 { "chrA" } else { "chrC" }), if i < 60 { i } else { i - 60 }, if i < 60 { i + 1 } else { i - 59 }));
+            }
+        }
         _ => {}
     }
     let mut text = String::new();
@@ -2053,6 +2198,29 @@ pub fn c08_tool(c: &crate::model::BedCase, out: &mut Outcome) {
     let dir = wd.path();
     std::fs::write(dir.join("f.bb"), &bytes).unwrap();
     for z in &d.zooms {
+        // the whole level, without --chrom: every stored record of every chromosome
+        {
+            let a = vec![s("bigbedtobed"), s("f.bb"), s("zall.txt"), s("--zoom"), z.reduction.to_string()];
+            let r = run_in(dir, &a);
+            out.count("tool_zoom_runs", 1);
+            out.count("tool_zoom_whole_level_dumps", 1);
+            if r.timed_out || r.code != Some(0) {
+                out.fail("tool_zoom_query_failed", &tags, format!("{:?}: exit {:?} stderr {}", a, r.code, r.stderr.chars().take(200).collect::<String>()));
+            } else {
+                let text = std::fs::read_to_string(dir.join("zall.txt")).unwrap_or_default();
+                let mut got: Vec<(String, u32, u32)> = text.lines().map(|l| { let f: Vec<&str> = l.split('\t').collect(); (f.first().unwrap_or(&"").to_string(), f.get(1).and_then(|x| x.parse().ok()).unwrap_or(u32::MAX), f.get(2).and_then(|x| x.parse().ok()).unwrap_or(u32::MAX)) }).collect();
+                // (a dump covers every chromosome from 0 to its declared length: records that lie wholly
+                // beyond it belong to entries reaching past the end and may or may not be printed)
+                let all_recs: Vec<(String, u32, u32, u32)> = z.blocks.iter().flatten().filter_map(|r| c.chroms.get(r.chrom as usize).map(|ch| (ch.name.clone(), r.start, r.end, ch.len))).collect();
+                got.retain(|g| all_recs.iter().any(|r| r.0 == g.0 && r.1 == g.1 && r.2 == g.2 && r.1 >= r.3) == false);
+                let mut want: Vec<(String, u32, u32)> = all_recs.iter().filter(|r| r.1 < r.3).map(|r| (r.0.clone(), r.1, r.2)).collect();
+                got.sort();
+                want.sort();
+                if got != want {
+                    out.fail("tool_zoom_output_differs_from_stored_records", &tags, format!("{:?}: {} lines, the level stores {} records (first printed {:?}, first stored {:?})", a, got.len(), want.len(), got.first(), want.first()));
+                }
+            }
+        }
         for (ci, ch) in c.chroms.iter().enumerate() {
             let all: Vec<&indep::ZRec> = z.blocks.iter().flatten().filter(|r| r.chrom == ci as u32).collect();
             // (ranges reaching beyond the chromosome end as well: entries may, and so may zoom records)
